@@ -52,3 +52,52 @@ func VerifDecodeSattr3(r io.Reader) (VerifSattr3, error) {
 	return VerifSattr3{s.SetMode, s.SetUID, s.SetGID, s.SetSize, s.Mode, s.UID, s.GID, s.Size,
 		s.SetAtime, s.AtimeSec, s.AtimeNsec, s.SetMtime, s.MtimeSec, s.MtimeNsec}, err
 }
+
+// ---- server-level access (handler tests without TCP) ----
+
+// VerifNewProcHandler builds a Server (not listening) around n and returns its procedure handler.
+func VerifNewProcHandler(n *AbsfsNFS, debug bool) (*NFSProcedureHandler, *Server) {
+	s, err := NewServer(ServerOptions{Name: "verif", Port: 0, Hostname: "localhost", Debug: debug, UseRecordMarking: true})
+	if err != nil {
+		panic(err)
+	}
+	s.SetHandler(n)
+	return &NFSProcedureHandler{server: s}, s
+}
+
+// VerifHandlePath returns the path a live handle denotes.
+func VerifHandlePath(n *AbsfsNFS, h uint64) (string, bool) {
+	f, ok := n.fileMap.Get(h)
+	if !ok {
+		return "", false
+	}
+	node, ok := f.(*NFSNode)
+	if !ok {
+		return "", false
+	}
+	return node.path, true
+}
+
+func VerifHandleCount(n *AbsfsNFS) int { return n.fileMap.Count() }
+
+// VerifNodeSetOwner sets the owner recorded in the node behind handle h (what GETATTR/ACCESS report).
+func VerifNodeSetOwner(n *AbsfsNFS, h uint64, uid, gid uint32) bool {
+	f, ok := n.fileMap.Get(h)
+	if !ok {
+		return false
+	}
+	node := f.(*NFSNode)
+	node.mu.Lock()
+	node.attrs.Uid, node.attrs.Gid = uid, gid
+	node.mu.Unlock()
+	return true
+}
+
+func VerifAttrCacheSize(n *AbsfsNFS) int { return n.attrCache.Size() }
+func VerifDirCacheSize(n *AbsfsNFS) int {
+	if n.dirCache == nil {
+		return 0
+	}
+	return n.dirCache.Size()
+}
+func VerifWriteVerf(s *Server) [8]byte { return s.writeVerf }
